@@ -234,7 +234,8 @@ pub fn check(cfg: &Cfg) -> Result<i32, Harness> {
     // S2: preemption inside interpreter calls (Miri's seeded scheduler, real threads)
     let n_seeds = cfg.n(12, 160) as u64;
     let base = cfg.seed.wrapping_mul(1000) % 1_000_000;
-    let (miri_runs, miri_fail) = run_miri(cfg, base..base + n_seeds, 3, 2)?;
+    // (not attempted when the static facts already fail: the thread harness cannot be built then)
+    let (miri_runs, miri_fail) = if violations.iter().any(|v| v.class == "S0") { (0, None) } else { run_miri(cfg, base..base + n_seeds, 3, 2)? };
     tally.add_n("miri_seeds", miri_runs);
     if let Some((seed, msg)) = miri_fail {
         let mut fp = BTreeMap::new();
